@@ -247,4 +247,4 @@ def cells_rec(row):
 
 
 def replay(path):
-    return 0
+    return core.generic_replay(path)
